@@ -642,6 +642,13 @@ func (s *Sim) oweVars(t *Session, msg *Msg, vars []variant, retain []bool, retai
 			return nil // session already ended
 		}
 		o := &OutMsg{M: msg, Vars: vars, Retain: retain, Offline: true, Retained: retained}
+		if t.LastRecvMax > 0 && len(t.Out) >= int(t.LastRecvMax) {
+			// the broker keeps applying the last connection's Receive Maximum to the offline session: this one is marked
+			// "send when quota frees" like a message held back on a live connection
+			o.WasDeferred = true
+			t.Taint["deferred"] = true
+			m.count("queued_for_offline_beyond_receive_maximum")
+		}
 		t.Out = append(t.Out, o)
 		m.count("queued_for_offline")
 		return nil
@@ -739,6 +746,7 @@ func (s *Sim) connectionEndedModel(sl *Slot, why string, resumedByTakeover bool)
 		return
 	}
 	sess.Slot = nil
+	sess.LastRecvMax = sl.RecvMax
 	sess.DiscAt = m.Now
 	// messages sent but unacknowledged stay owed; expectations on the dead connection are void
 	for _, e := range sl.Exp {
